@@ -26,6 +26,8 @@ claimed={
         "Nothing stubbed. SQL lexers in harness/h/sqllex.go are the oracle."),
  "C01":("46 expression shapes with arbitrary binary operators in 12 expression positions are compiled by the real compiler; the emitted SQL expression is re-parsed with ClickHouse's operator priorities by an independent parser and mapped to a term of a value algebra (operators uninterpreted, coalesce/IS NULL/CASE interpreted); z3 decides, for all rows and all interpretations, equality with the term of the PQL expression as grouped by the real parser, and that ==/!= never yield NULL. Non-termination and comment-producing output are violations.",
         "ClickHouse priority table and the PQL meaning table (harness/h/valmap.go) are trusted transcriptions; the real parser's grouping is C07's subject."),
+ "C06":("Programs built from let prefixes x use sites x suffixes x parameter maps (and shapes with arbitrary operators around and inside the binding) are compiled by the real compiler; a reference with lexical scoping evaluates the real parser's tree to a value-algebra term and z3 decides equality with the term of the emitted SQL for all rows; non-substituted contexts (quoted, qualified, function, table, alias) are checked structurally; removing unused bindings / lets after the query must leave the SQL byte-identical.",
+        "Programs are enumerated by selectors (reported as such); the solver's quantifier is over rows and operator interpretations."),
 }
 checks=[]
 for p in props:
